@@ -56,6 +56,77 @@ type keyEnv struct {
 	store     map[string]kmip.Object
 	nextID    int
 	wireFails int
+	// snaps: what the sample keys were when they were made (see keyCheckSnapshots)
+	snaps []keySnap
+}
+
+// keySnap: the numbers / bytes of a sample key, copied when the sample is created.
+type keySnap struct {
+	label string
+	ints  []*big.Int // live values
+	was   []*big.Int // copies
+	e     *int
+	eWas  int
+	nP    func() int
+	nPWas int
+	b     []byte
+	bWas  []byte
+}
+
+func (env *keyEnv) snapshot() {
+	cp := func(vs ...*big.Int) []*big.Int {
+		out := make([]*big.Int, len(vs))
+		for i, v := range vs {
+			if v != nil {
+				out[i] = new(big.Int).Set(v)
+			}
+		}
+		return out
+	}
+	for _, s := range env.rsas {
+		k := s.key
+		live := append([]*big.Int{k.N, k.D}, k.Primes...)
+		env.snaps = append(env.snaps, keySnap{label: "rsa " + s.label, ints: live, was: cp(live...), e: &k.E, eWas: k.E,
+			nP: func() int { return len(k.Primes) }, nPWas: len(k.Primes)})
+	}
+	for _, s := range env.ecs {
+		live := []*big.Int{s.key.D, s.key.X, s.key.Y}
+		env.snaps = append(env.snaps, keySnap{label: "ec " + s.label, ints: live, was: cp(live...)})
+	}
+	for _, s := range env.byteS {
+		env.snaps = append(env.snaps, keySnap{label: "bytes " + s.label, b: s.b, bWas: append([]byte{}, s.b...)})
+	}
+}
+
+// keyCheckSnapshots: the property compares what is extracted with THE ORIGINAL.  The round-trip oracle compares
+// with the caller's key object as it is after the builder has seen it, so a builder (or an encoder) that modifies
+// the key it is given — and then transports the modified numbers faithfully — would pass; here the caller's keys
+// are compared with what they were before the first builder saw them.  (rsa.PrivateKey.Precomputed is not part of
+// the comparison: filling it in is what (*rsa.PrivateKey).Precompute does and changes nothing mathematically.)
+func keyCheckSnapshots(env *keyEnv) {
+	for _, sn := range env.snaps {
+		changed := ""
+		for i, v := range sn.ints {
+			if (v == nil) != (sn.was[i] == nil) || (v != nil && v.Cmp(sn.was[i]) != 0) {
+				changed = fmt.Sprintf("number #%d", i)
+			}
+		}
+		if sn.e != nil && *sn.e != sn.eWas {
+			changed = "public exponent"
+		}
+		if sn.nP != nil && sn.nP() != sn.nPWas {
+			changed = "number of primes"
+		}
+		if !bytes.Equal(sn.b, sn.bWas) {
+			changed = "bytes"
+		}
+		env.ctx.Res.Count("snapshot.checked")
+		if changed != "" {
+			line := "#key.snapshot " + sn.label
+			keyViolate(env.ctx, "caller-key-unchanged", "key:caller-key-modified:"+strings.Fields(sn.label)[0],
+				"the key handed to the register builders ("+sn.label+") is no longer what it was before: "+changed+" changed; the round-trip comparisons were made with the modified key", line)
+		}
+	}
 }
 
 func keyNewEnv(ctx *Ctx) *keyEnv {
@@ -81,6 +152,7 @@ func keyNewEnv(ctx *Ctx) *keyEnv {
 		ctx.Res.Fail("key: no RSA sample for the accessor shapes")
 		return nil
 	}
+	env.snapshot()
 	env.blobs = keyBuildBlobs(ctx, env.shapeRSA)
 	// in-process server: Register stores the object, Get returns it
 	exec := kmipserver.NewBatchExecutor()
@@ -352,8 +424,42 @@ func keyRtCase(env *keyEnv, path string, enc keyEnc, ver kmip.ProtocolVersion, b
 	line := fmt.Sprintf("#key.rt %s %s %s %s %d %s", path, enc.name, verStr(ver), b.name, kf, orig.label)
 	ctx.current = line
 	ctx.Res.Count("rt." + path + "." + enc.name + "." + b.kind)
-	outcome := "ok"
-	defer func() { ctx.Add(line, outcome, true, "C14") }()
+	// Codec path: the buffers the messages were decoded FROM are overwritten as soon as the decoder has returned
+	// (a caller may reuse its read buffer for the next message): key material that still points into its input
+	// buffer is then no longer the key.  When something fails, the case is evaluated once more with the buffers
+	// left alone, to tell "wrong key" from "right key, but aliasing the caller's buffer".
+	outcome, fails := keyRtEval(env, path, enc, ver, b, kf, orig, line, path == "codec", true)
+	if len(fails) > 0 && path == "codec" {
+		if out2, fails2 := keyRtEval(env, path, enc, ver, b, kf, orig, line, false, false); len(fails2) == 0 {
+			ctx.Res.Count("rt.codec.aliasing-detected")
+			_ = out2
+			f := fails[0]
+			fails = []keyFail{{"input-aliasing", "key:" + enc.name + ":" + b.kind + ":decoded-material-aliases-input-buffer",
+				"the object decoded from a message is correct as long as the buffer it was decoded from is left untouched, but changes when the caller overwrites that buffer: " + f.detail}}
+		} else {
+			fails = fails2
+		}
+	}
+	for _, f := range fails {
+		keyViolate(ctx, f.oracle, f.key, f.detail, line)
+	}
+	ctx.Add(line, outcome, true, "C14")
+}
+
+type keyFail struct{ oracle, key, detail string }
+
+// keyScribble overwrites a buffer a message has been decoded from.
+func keyScribble(b []byte) {
+	for i := range b {
+		b[i] = 0xA5
+	}
+}
+
+// keyRtEval evaluates one round trip and returns the outcome and the failures. `scribble`: overwrite the transport
+// buffers after decoding (codec path); `first`: count and emit the `key.reg` correspondence line (once per case).
+func keyRtEval(env *keyEnv, path string, enc keyEnc, ver kmip.ProtocolVersion, b keyBuilder, kf uint8, orig *keyRtOrig, line string, scribble, first bool) (outcome string, fails []keyFail) {
+	ctx := env.ctx
+	outcome = "ok"
 	regFmt := uint32(0)
 	fail := func(oracle, what, detail string) {
 		if orig.lenient {
@@ -365,17 +471,19 @@ func keyRtCase(env *keyEnv, path string, enc keyEnc, ver kmip.ProtocolVersion, b
 				if outcome == "ok" {
 					outcome = "refused"
 				}
-				ctx.Res.Count("rt.lenient.refused")
+				if first {
+					ctx.Res.Count("rt.lenient.refused")
+				}
 				return
 			}
 		}
 		outcome = "violation"
 		if orig.multi && regFmt == 10 {
 			// everything that goes wrong with a multi-prime key in the two-prime transparent format is one finding
-			keyViolate(ctx, "key-equal", "key:rsapriv:transparent-rsa:multi-prime-truncated", detail+" ["+line+"]", line)
+			fails = append(fails, keyFail{"key-equal", "key:rsapriv:transparent-rsa:multi-prime-truncated", detail + " [" + line + "]"})
 			return
 		}
-		keyViolate(ctx, oracle, "key:"+enc.name+":"+b.kind+":"+what, detail+" ["+line+"]", line)
+		fails = append(fails, keyFail{oracle, "key:" + enc.name + ":" + b.kind + ":" + what, detail + " [" + line + "]"})
 	}
 	cl := env.client(ver)
 	if cl == nil {
@@ -400,7 +508,7 @@ func keyRtCase(env *keyEnv, path string, enc keyEnc, ver kmip.ProtocolVersion, b
 		if orig.multi && keyFormatIn(10, keyAdmissibleFormats(b.kind, kf, ver)) {
 			// the transparent KMIP format has two primes: refusing a multi-prime key is a correct answer
 			outcome = "refused"
-			if adm := keyAdmissibleFormats(b.kind, kf, ver); len(adm) == 1 {
+			if adm := keyAdmissibleFormats(b.kind, kf, ver); len(adm) == 1 && first {
 				env.regLine(b.kind, kf, ver, orig, nil, 10, "err")
 			}
 			return
@@ -420,7 +528,9 @@ func keyRtCase(env *keyEnv, path string, enc keyEnc, ver kmip.ProtocolVersion, b
 			fail("format-selector", "format-"+keyFmtName(uint32(kb.KeyFormatType))+"-not-requested",
 				fmt.Sprintf("format mask %d at %s: registered as key format %d, which is neither a requested format of this kind of key nor (none being requested) its default; admissible: %v", kf, verStr(ver), kb.KeyFormatType, adm))
 		}
-		env.regLine(b.kind, kf, ver, orig, req.Object, uint32(kb.KeyFormatType), "ok")
+		if first {
+			env.regLine(b.kind, kf, ver, orig, req.Object, uint32(kb.KeyFormatType), "ok")
+		}
 	}
 	if kb := keyKbOf(req.Object); kb != nil {
 		regFmt = uint32(kb.KeyFormatType)
@@ -440,6 +550,9 @@ func keyRtCase(env *keyEnv, path string, enc keyEnc, ver kmip.ProtocolVersion, b
 			fail("transport", "request-decode-failed", fmt.Sprintf("the Register request is not decodable: %v %s", err, p))
 			return
 		}
+		if scribble {
+			keyScribble(doc)
+		}
 		if len(back.BatchItem) != 1 {
 			fail("transport", "request-items", "the decoded request has not exactly one item")
 			return
@@ -451,7 +564,11 @@ func keyRtCase(env *keyEnv, path string, enc keyEnc, ver kmip.ProtocolVersion, b
 		}
 		pl := &payloads.GetResponsePayload{ObjectType: rreq.ObjectType, UniqueIdentifier: "id-1", Object: rreq.Object}
 		var okT bool
-		got, okT = keyTransportPayload(enc, ver, pl)
+		var doc2 []byte
+		got, doc2, okT = keyTransportPayloadDoc(enc, ver, pl)
+		if scribble {
+			keyScribble(doc2)
+		}
 		if !okT {
 			fail("transport", "response-not-decodable", "the Get response carrying the registered object cannot be encoded and decoded")
 			return
@@ -498,6 +615,7 @@ func keyRtCase(env *keyEnv, path string, enc keyEnc, ver kmip.ProtocolVersion, b
 		got = r.pl
 	}
 	keyVerifyPayload(got, b.kind, orig, keyFmtName(regFmt), fail)
+	return
 }
 
 // keyVerifyPayload: every accessor that applies to the kind of key returns a key equal to the original, every
